@@ -39,13 +39,13 @@ func libField(f *gf.Field) *rs.GenericGF {
 
 // Trace04 is one transmission over the codeword channel.
 type Trace04 struct {
-	Kind   string   `json:"kind"` // "tx" | "field" | "cache"
+	Kind   string   `json:"kind"` // "tx" | "field" | "first" | "cache" | "dechist"
 	Field  string   `json:"field"`
 	K      int      `json:"k,omitempty"`
 	R      int      `json:"r,omitempty"`
 	Data   []int    `json:"data,omitempty"`
 	Errors [][2]int `json:"errors,omitempty"` // (position, non-zero magnitude)
-	Seq    []int    `json:"seq,omitempty"`    // cache history: parity counts asked of one encoder
+	Seq    []int    `json:"seq,omitempty"`    // cache / dechist history: parity counts asked of one encoder / one decoder
 	A      int      `json:"a,omitempty"`      // field job: failing element(s)
 	B      int      `json:"b,omitempty"`
 }
@@ -165,6 +165,15 @@ type job04 struct {
 
 func jobs04(tier string) []job04 {
 	var j []job04
+	// which accessor of a field object is called FIRST in a process must not
+	// matter (tables built on first use): every accessor gets to be the first
+	// call on every field in some worker process. These light jobs come
+	// before everything else; job i and job i+16 concern different fields.
+	for op := 0; op < 4; op++ {
+		for _, f := range gf.All {
+			j = append(j, job04{kind: "first", field: f, n: op})
+		}
+	}
 	for _, f := range gf.All {
 		j = append(j, job04{kind: "field", field: f})
 	}
@@ -217,6 +226,7 @@ func jobs04(tier string) []job04 {
 	}
 	for i := 0; i < nc; i++ {
 		j = append(j, job04{kind: "cache"})
+		j = append(j, job04{kind: "dechist"})
 	}
 	return j
 }
@@ -604,6 +614,135 @@ func cacheHistory(c *kit.Ctx, tr *Trace04) *fail {
 	return res
 }
 
+// decoderHistory drives ONE decoder object through a sequence of damaged
+// words with changing parity counts and lengths (a reader keeps one decoder
+// and feeds it block after block, symbol after symbol). Step i is a pure
+// function of (tr.K, i, tr.Seq[i]); a Seq entry <= 0 is a skipped step, so a
+// minimised trace keeps the remaining steps unchanged.
+func decoderHistory(c *kit.Ctx, tr *Trace04, probe func(string)) *fail { // c may be nil (minimisation)
+	rf := gf.ByName(tr.Field)
+	if rf == nil {
+		return nil
+	}
+	lf := libField(rf)
+	var res *fail
+	func() {
+		defer func() {
+			if r := recover(); r != nil {
+				res = &fail{"dechist/panic", fmt.Sprintf("panic: %v", r)}
+			}
+		}()
+		dec := rs.NewReedSolomonDecoder(lf)
+		for step, ec := range tr.Seq {
+			r := kit.NewRNG(uint64(tr.K)*0x9e3779b97f4a7c15 + uint64(step))
+			if ec < 2 || ec >= rf.Size-2 {
+				continue
+			}
+			k := 1 + r.Intn(minInt(30, rf.Size-1-ec))
+			data := randData(r, rf, k)
+			sent := rf.Encode(data, ec)
+			word := append([]int(nil), sent...)
+			t := ec / 2
+			nerr := r.Intn(t + 1)
+			if r.Chance(1, 3) {
+				nerr = t
+			}
+			seen := map[int]bool{}
+			for len(seen) < nerr && len(seen) < len(word) {
+				p := r.Intn(len(word))
+				if seen[p] {
+					continue
+				}
+				seen[p] = true
+				word[p] ^= 1 + r.Intn(rf.Size-1)
+			}
+			if nerr > 0 {
+				probe("fault.symbol_errors_on_a_reused_decoder")
+			}
+			err := dec.Decode(word, ec)
+			hist := fmt.Sprintf("step %d (r=%d, k=%d, %d errors, t=%d) on a decoder that was asked r=%v before", step, ec, k, len(seen), t, tr.Seq[:step])
+			if err != nil {
+				res = &fail{"dechist/error", hist + fmt.Sprintf(": not corrected: %v", err)}
+				return
+			}
+			for i := range word {
+				if word[i] != sent[i] {
+					res = &fail{"dechist/miscorrect", hist + fmt.Sprintf(": Decode returned nil but symbol %d is %d, sent %d", i, word[i], sent[i])}
+					return
+				}
+			}
+			if c != nil {
+				c.EvalN(1)
+			}
+		}
+	}()
+	return res
+}
+
+// minDecHist drops (zeroes) history steps while the same failure class persists.
+func minDecHist(c *kit.Ctx, tr *Trace04, class string) *Trace04 {
+	cur := *tr
+	cur.Seq = append([]int(nil), tr.Seq...)
+	for i := range cur.Seq {
+		if cur.Seq[i] <= 0 {
+			continue
+		}
+		old := cur.Seq[i]
+		cur.Seq[i] = 0
+		f := decoderHistory(nil, &cur, func(string) {})
+		if f == nil || f.class != class {
+			cur.Seq[i] = old
+		}
+	}
+	return &cur
+}
+
+// firstCallJob makes one accessor the first thing this job asks of the field
+// object and compares a sample of its answers with the reference field.
+func firstCallJob(c *kit.Ctx, rf *gf.Field, op int) {
+	lf := libField(rf)
+	name := []string{"Log", "Exp", "Inverse", "Multiply"}[op%4]
+	bad := func(a, b int, detail string) {
+		c.Violate("field/first-"+name, "field/first-"+name+"/"+rf.Name, detail+" [the first call on this field object in the job; tables built on first use?]", &Trace04{Kind: "first", Field: rf.Name, A: a, B: b, R: op})
+	}
+	defer func() {
+		if r := recover(); r != nil {
+			bad(0, 0, fmt.Sprintf("panic in field %s: %v", rf.Name, r))
+		}
+	}()
+	r := kit.NewRNG(uint64(op)*977 + uint64(rf.Size))
+	for i := 0; i < 64; i++ {
+		a, b := 1+r.Intn(rf.Size-1), 1+r.Intn(rf.Size-1)
+		e := r.Intn(rf.Size - 1)
+		switch op % 4 {
+		case 0:
+			l, err := lf.Log(a)
+			if err != nil || l < 0 || l >= rf.Size-1 || rf.Alpha(l) != a {
+				bad(a, 0, fmt.Sprintf("%s: Log(%d)=%d,%v but alpha^%d=%d", rf.Name, a, l, err, l, rf.Alpha(((l%(rf.Size-1))+rf.Size-1)%(rf.Size-1))))
+				return
+			}
+		case 1:
+			if g := lf.Exp(e); g != rf.Alpha(e) {
+				bad(e, 0, fmt.Sprintf("%s: Exp(%d)=%d, alpha^%d=%d", rf.Name, e, g, e, rf.Alpha(e)))
+				return
+			}
+		case 2:
+			inv, err := lf.Inverse(a)
+			if err != nil || rf.Mul(a, inv) != 1 {
+				bad(a, 0, fmt.Sprintf("%s: Inverse(%d)=%d,%v; a*inv != 1", rf.Name, a, inv, err))
+				return
+			}
+		default:
+			if g, w := lf.Multiply(a, b), rf.Mul(a, b); g != w {
+				bad(a, b, fmt.Sprintf("%s: Multiply(%d,%d)=%d, shift-and-reduce gives %d", rf.Name, a, b, g, w))
+				return
+			}
+		}
+		c.EvalN(1)
+	}
+	c.Count("field.first_call_"+name, 1)
+}
+
 // C04 returns the runner spec.
 func C04() *kit.Spec {
 	var cache = map[string][]job04{}
@@ -635,7 +774,7 @@ func C04() *kit.Spec {
 			"codeword channel":               "simulated medium (harness)",
 			"gf.Field / Parity / Syndromes":  "reference model (harness)",
 		},
-		FaultKinds:  []string{"none(control)", "symbol_errors_below_t", "symbol_errors_exactly_t"},
+		FaultKinds:  []string{"none(control)", "symbol_errors_below_t", "symbol_errors_exactly_t", "symbol_errors_on_a_reused_decoder"},
 		SimTimeNote: "none: no timers; logical steps = words transmitted",
 		NumRuns:     func(tier string) int { return len(jobs(tier)) },
 		Run: func(c *kit.Ctx) {
@@ -654,6 +793,8 @@ func C04() *kit.Spec {
 			switch j.kind {
 			case "field":
 				fieldJob(c, j.field)
+			case "first":
+				firstCallJob(c, j.field, j.n)
 			case "singles", "doubles":
 				s := j.sh
 				n := s.k + s.r
@@ -794,6 +935,22 @@ func C04() *kit.Spec {
 				if fl := cacheHistory(c, tr); fl != nil {
 					c.Violate(fl.class, fl.class+"/"+tr.Field, fl.detail, tr)
 				}
+			case "dechist":
+				f := gf.All[r.Intn(len(gf.All))]
+				tr := &Trace04{Kind: "dechist", Field: f.Name, K: int(r.Uint64() >> 40)}
+				n := r.Range(2, 14)
+				for i := 0; i < n; i++ {
+					tr.Seq = append(tr.Seq, r.Range(2, minInt(60, f.Size-3)))
+				}
+				c.Eval(kit.HashJSON(tr), true)
+				c.Steps(int64(n))
+				if fl := decoderHistory(c, tr, probe); fl != nil {
+					tr = minDecHist(c, tr, fl.class)
+					if f2 := decoderHistory(nil, tr, func(string) {}); f2 != nil {
+						fl = f2
+					}
+					c.Violate(fl.class, fl.class+"/"+tr.Field, fl.detail, tr)
+				}
 			}
 		},
 		Replay: func(c *kit.Ctx, raw json.RawMessage) {
@@ -810,8 +967,15 @@ func C04() *kit.Spec {
 				}
 			case "field":
 				fieldJob(c, gf.ByName(tr.Field))
+			case "first":
+				// a fresh replay process: this IS the first call on the field object
+				firstCallJob(c, gf.ByName(tr.Field), tr.R)
 			case "cache":
 				if fl := cacheHistory(c, tr); fl != nil {
+					c.Violate(fl.class, fl.class+"/"+tr.Field, fl.detail, tr)
+				}
+			case "dechist":
+				if fl := decoderHistory(c, tr, func(string) {}); fl != nil {
 					c.Violate(fl.class, fl.class+"/"+tr.Field, fl.detail, tr)
 				}
 			}
